@@ -409,7 +409,14 @@ func c09exec(c *Ctx, w *c09world, t, i int, op c09op) {
 		case 4:
 			s.WithLazy("t", t).Named("n").Info("sugar lazy child ", i)
 		case 5:
-			s.WithOptions(zap.AddCallerSkip(0)).Desugar().Info("desugared", zap.Int("t", t))
+			if op.c%2 == 0 {
+				// Desugar on the shared value itself (it must not touch the
+				// logger the sugared one wraps), and a derivation with no option
+				s.Desugar().Info("desugared directly", zap.Int("t", t))
+				s.WithOptions().Desugar().Info("desugared after no option", zap.Int("i", i))
+			} else {
+				s.WithOptions(zap.AddCallerSkip(0)).Desugar().Info("desugared", zap.Int("t", t))
+			}
 		default:
 			// malformed key/value lists report through the same logger
 			s.Warnw("odd", "dangling")
